@@ -632,6 +632,16 @@ def c01_2(R):
     it = R.body(SEG + "::iter_mut_for_sending")
     # removed_abs / snd_una snapshots come from the same-named fields
     R.ok("iterator-snapshots", it.name, "the closure's captured snapshots are traced to Segments.removed_offset / Segments.snd_una in the parent")
+    # the index that becomes the sequence number is the POSITION in the queue: enumerate() sits directly on range_mut(..),
+    # nothing may drop or reorder elements before it (a filter placed before enumerate renumbers every later segment)
+    en = [t for t in it.calls() if call_matches(t, ("Iterator::enumerate",))]
+    R.require(len(en) == 1, "enumerate() in iter_mut_for_sending")
+    src = trace(it, en[0].args[0], extra_transparent=())
+    if src.kind == "call" and call_on_field(it, src.root[1], ("VecDeque::range_mut", "VecDeque::range", "VecDeque::iter_mut"), "Segments.segments") and not src.fields:
+        R.ok("index=queue-position", it.name, "segments.range_mut(range).enumerate() with no adapter in between")
+    else:
+        R.fail([it.name, "enumerate-not-on(range_mut)", short_callee(src.root[1].resolved) if src.kind == "call" else src.describe()[:40]],
+               "an adapter sits between the queue range and enumerate(): the index no longer is the segment's position, so every segment after a dropped one is sent under the wrong sequence number with the wrong bytes", where=en[0].where(), instance="index=queue-position")
 
 
 @rule("C01.8", ["C01", "C03"], ["E3", "E4", "E2"], "the reader hands every queued payload byte to the application once, in order, and reports the count it copied",
